@@ -5,7 +5,7 @@ CONSTANTS
   MaxLost = 2
   MaxArgSpans = 2
   MaxArgLen = 3
-  MaxSliceLen = 4
+  MaxSliceLen = 3
   MaxAddSpans = 2
   Scales = {1, 2, 3}
 INVARIANT TypeOK
